@@ -16,7 +16,7 @@ REPO = os.environ.get("VERIF_REPO", "/repo")
 COQ = os.path.join(VERIF, "coq")
 OCAML = os.path.join(VERIF, "ocaml")
 HARNESS = os.path.join(VERIF, "harness")
-EVIDENCE = os.path.join(VERIF, "evidence")
+EVIDENCE = os.environ.get("VERIF_EVIDENCE_DIR") or os.path.join(VERIF, "evidence")   # tools/try_seeded.sh redirects it so that runs against a patched tree do not overwrite the evidence of the unchanged tree
 REPLAYS = os.path.join(VERIF, "replays")
 MODEL_BIN = os.path.join(OCAML, "model")
 
